@@ -909,3 +909,25 @@ Proof.
     apply in_rev. rewrite E. left. reflexivity.
   - exists 5, [(7, 9); (0, 9)]. split; reflexivity.
 Qed.
+
+(** * identity attribute credentials: threshold = number of sharing coefficients *)
+Theorem identity_attributes_threshold_exact_ : forall ip t n sg,
+  identity_attributes_verdict ip t n sg = IAOk <-> (ip = true /\ t = n /\ sg = true).
+Proof.
+  intros ip t n sg. unfold identity_attributes_verdict.
+  destruct ip; cbn [negb]; [|split; [discriminate|intros [E _]; discriminate]].
+  destruct (t =? n) eqn:E; cbn [negb].
+  - apply N.eqb_eq in E. destruct sg; cbn [negb]; split; try discriminate; try tauto.
+    intros [_ [_ X]]; discriminate.
+  - apply N.eqb_neq in E. split; [discriminate|]. intros [_ [X _]]. contradiction.
+Qed.
+
+Theorem threshold_check_gt_weaker_ :
+  (forall t n, (t =? n) = true -> threshold_check_gt t n = true)
+  /\ (exists t n, threshold_check_gt t n = true /\ t <> n
+                  /\ identity_attributes_verdict true t n true = IAFailAr).
+Proof.
+  split.
+  - intros t n E. apply N.eqb_eq in E. subst. unfold threshold_check_gt. rewrite N.ltb_irrefl. reflexivity.
+  - exists 2, 3. repeat split; try reflexivity. discriminate.
+Qed.
